@@ -1024,3 +1024,8 @@ VARIANTS += [
     dict(prop="C04", name="mac-share-sub-assign-components-reordered",
          edits=[dict(file=MAS, find="        self.x -= &rhs.x;\n        self.rx -= &rhs.rx;", replace="        self.rx -= &rhs.rx;\n        self.x -= &rhs.x;")], benign=True),
 ]
+
+VARIANTS += [
+    dict(prop="C07", name="aggregate-width-test-on-second-operand", expect="WIRE-aggregate|width-test-on-first-operand",
+         edits=[dict(file="ipa-core/src/protocol/ipa_prf/aggregation/mod.rs", find="                                if a.len() < usize::try_from(OV::BITS).unwrap() {", replace="                                if b.len() < usize::try_from(OV::BITS).unwrap() {")]),
+]
